@@ -188,7 +188,7 @@ func c07Phase(ctx *Ctx, r *rand.Rand, db *database.Database, dbName, phase strin
 		if marker {
 			thr = 0
 		}
-		o := database.SearchOptions{Limit: []int{3, 5, 10, N + 1}[r.Intn(4)], UseNLP: r.Intn(2) == 0, AllPlatforms: true, FuzzyThreshold: thr}
+		o := database.SearchOptions{Limit: []int{3, 5, 10, N + 1, 0, -1, math.MinInt32, 1}[r.Intn(8)], UseNLP: r.Intn(2) == 0, AllPlatforms: true, FuzzyThreshold: thr}
 		if r.Intn(2) == 0 { // platform requests as the CLI hands them over (aliases, padding, blanks)
 			o.AllPlatforms = false
 			o.Platforms = c04PlatformSets[r.Intn(len(c04PlatformSets))]
@@ -213,7 +213,7 @@ func c07Phase(ctx *Ctx, r *rand.Rand, db *database.Database, dbName, phase strin
 			if len(refs[0]) > 0 {
 				// (i) an answer that exists is not changed by typo tolerance
 				ctx.R.Path("lexical-answer-exists", 1)
-				verdict, why := vlib.CompareToRef(refs, stable, on, o.Limit)
+				verdict, why := vlib.CompareToRef(refs, stable, on, vlib.LimitInForce(o.Limit))
 				switch verdict {
 				case "violated":
 					ctx.R.Violate(vlib.Violation{Property: "C07", Clause: "fuzzy-changes-existing-answer", Path: "SearchUniversal",
